@@ -25,19 +25,23 @@ TV = "translation_validation"
 
 prop("C01", TV, "Lean 4 model + differential correspondence (proof in progress)",
      "Executable Lean model of parser, mapper and cache answers frame-by-line queries; every run compares it with the real crate on generated mappings x the query universe, and a metamorphic oracle checks independence from terminators, noise lines and block order.",
-     "Model hand-written; tie is differential.", oracle=True)
+     "Model hand-written; tie is differential. Mapper side proved (record-level specification PG/Spec/Retrace.lean: last block with that name, entries in file order whose range contains the line, ProGuard line rule, sourceFile/synthetic/foreign-class file rule; unknown class/method => []; independent of parameter index and of other blocks); bytes -> records is C05; the cache side is C02.",
+     theorems=["PG.C01_mapper", "PG.C01_unknown_class", "PG.C01_unknown_method", "PG.C01_pm_indep", "PG.C01_offset_exact", "PG.C01_block_local"], oracle=True)
 prop("C02", TV, "Lean 4 model + differential correspondence (proof in progress)",
      "Model of mapper and of cache writer+reader compared with the crate on every query kind; direct oracle mapper == cache on the implementation's own answers.",
      "Model hand-written; tie is differential.")
 prop("C03", TV, "Lean 4 model + differential correspondence (proof in progress)",
      "Parameter-based retrace of model vs crate on multi-class mappings with inline groups and repeated entries; oracle: mapper(pm) == cache, no duplicate methods, line 0 / no file.",
-     "Model hand-written; tie is differential.")
+     "Model hand-written; tie is differential. Mapper side proved against PG/Spec/Retrace.lean (non-inlined entries, first occurrence per (obf,args,name), file order, line 0, no file, no duplicates, block-local); the cache side is C02.",
+     theorems=["PG.C03_mapper", "PG.C03_pm_false", "PG.C03_line_file", "PG.C03_no_inlined", "PG.C03_nodup", "PG.C03_class_local"])
 prop("C04", TV, "Lean 4 model + differential correspondence (proof in progress)",
      "Class and method lookup of model vs crate on adversarially similar names and sort-order neighbours; oracle: method answer implies every line-based frame carries it.",
-     "Model hand-written; tie is differential.")
-prop("C05", TV, "Lean 4 model + differential correspondence (proof in progress)",
-     "Record parser model vs crate on printed ASTs, malformed families, corpus lines and all lines of <= 4 (quick) / 6 (thorough) tokens over a 12-token alphabet.",
-     "Model hand-written; tie is differential.")
+     "Model hand-written; tie is differential. Mapper side proved against PG/Spec/Retrace.lean (class lookup = last class line with that name; method lookup answers iff all entries agree; then every line-based frame carries that name); the cache side is C02.",
+     theorems=["PG.C04_class", "PG.C04_method", "PG.C04_method_frames"])
+prop("C05", "proof", "Lean 4 round-trip theorems over the line grammar AST + differential correspondence",
+     "Kernel-checked theorems over the documented line grammar (PG/Spec/Grammar.lean: an AST of class, field, method, key/value header, key header and R8 sourceFile header lines with printer and denoted record, written from the format description only): every well-formed line, followed by any terminator(s) and any further input or by the end of input, parses to exactly the record it denotes (names, types, argument string, foreign class split at the last dot, line mapping present iff both obfuscated numbers are positive, original start/end present iff printed); try_parse agrees; a file of such lines with any mix of CR/LF terminators (last one optional) yields exactly their records. Malformed families, each quantified over all well-formed components, yield an error item carrying the offending line: unspaced arrow, missing arrow, missing class colon, start line without end line, missing return type, indentation of 0-3 spaces. The parser model is tied to the crate on printed ASTs, malformed variants, every corpus line and all lines of <= 4 (quick) / 6 (thorough) tokens over a 12-token alphabet.",
+     "Hypotheses the proofs force beyond the property text (all in Line.WF): a type may not start with a digit unless a start:end: prefix is printed; numbers < 2^64; header keys/values without surrounding Unicode whitespace; method names without '.'.",
+     theorems=["PG.C05_line", "PG.C05_try", "PG.C05_file", "PG.C05_file_no_final_newline", "PG.C05_err_unspaced_arrow", "PG.C05_err_missing_arrow", "PG.C05_err_missing_colon", "PG.C05_err_start_without_end", "PG.C05_err_missing_type", "PG.C05_err_indent"])
 prop("C06", "proof", "Lean 4 theorems over all byte strings (termination, count, no terminators, line-local resynchronisation) + differential correspondence",
      "Kernel-checked theorems for every byte string: each iteration of the record iterator consumes at least one byte and leaves a suffix (so the fuel-driven definition is the Rust iterator and terminates); at most one item per input byte; no yielded name, type, argument string or header value contains a line terminator; and records(A ++ newline ++ B) = records(A) ++ records(B) for every A, B and either terminator byte, up to the unavoidable normalisation (an error line carries or lacks its terminator byte; the empty-line error that trailing terminators produce at end of input) — a truncated, binary or malformed line can only turn itself into an error. Error items with an empty line occur only last. The parser model is tied to the crate on byte soups, token soups, invalid UTF-8, huge digit runs, unterminated sourceFile headers and corpus files; the same resynchronisation law is checked on the implementation directly (bounded-exhaustive over a 9-symbol alphabet, random splits, every line split of the corpus), under catch_unwind.",
      "No-panic is: the model is total + every protocol operation on the crate runs under catch_unwind with overflow checks on.",
